@@ -18,6 +18,7 @@ class RefReward:
     def __init__(self, agent_cfg: Dict):
         self.ref = agent_cfg["ref"]
         self.components = []
+        self.flags = set()
         for c in (agent_cfg.get("reward_function") or {}).get("reward_components", []) or []:
             self.components.append({"type": c["type"], "weight": c.get("weight", 1.0), "options": dict(c.get("options") or {}), "memory": 0.0})
 
@@ -38,6 +39,11 @@ class RefReward:
                 return 0.0 if True else comp["memory"]
             codes = [c.value for c in svc.response_codes_this_timestep]
             if codes:
+                self.flags.add("c10_web_codes")
+                if any(c not in (200, 404) for c in codes):
+                    self.flags.add("c10_web_code_other_than_200_404")
+                if any(c == 404 for c in codes):
+                    self.flags.add("c10_web_code_404")
                 comp["memory"] = sum(1.0 if c == 200 else -1.0 if c == 404 else 0.0 for c in codes) / len(codes)
             elif not o.get("sticky", True):
                 comp["memory"] = 0.0
@@ -127,6 +133,9 @@ class C10Monitor(Monitor):
 
         for name in self.refs:
             exp = reward_of(name)
+            for fl in self.refs[name].flags:
+                run.probe(fl)
+            self.refs[name].flags.clear()
         for name, agent in game.agents.items():
             exp = cache[name]
             got = agent.reward_function.current_reward
